@@ -43,15 +43,26 @@ def level_string(lv, k):
     return ("K.PEP%dK.A" % k) if lv == "mod" else "%s%d" % (lv.upper(), k)
 
 
+def spec_key(spec, with_mass=True):
+    """(ScanNr, ExpMass) of spectrum number `spec`.  Spectra 2j-1 and 2j get DIFFERENT keys whose string concatenation
+    is the same ("3"+"12.5" and "31"+"2.5"): keys must be compared column by column, not as a concatenation.
+    With a scan-only key the scan number is the spectrum number itself."""
+    if not with_mass:
+        return spec, 500.0 + spec % 7
+    j, d = (spec + 1) // 2, ((spec + 1) // 2) % 7
+    return (j, 10.0 + d + 0.5) if spec % 2 == 1 else (10 * j + 1, d + 0.5)
+
+
 def build_table(rows, *, label_enc="1/-1", extra_levels=(), nfeat=2, key_cols=("ScanNr", "ExpMass")):
     """rows: list of dicts with id (int), spec (int), pep (int), tgt (bool), feats (list of float, optional),
     lvl (dict level-name -> int, optional), file (int, optional).  Returns a DataFrame in PIN column order."""
     n = len(rows)
+    keyed = [spec_key(int(r["spec"]), "ExpMass" in key_cols) for r in rows]
     d = {
         "SpecId": ["r%d" % r["id"] for r in rows],
         "Label": [label_value(r["tgt"], label_enc) for r in rows],
-        "ScanNr": [int(r["spec"]) for r in rows],
-        "ExpMass": [500.0 + (int(r["spec"]) % 7) for r in rows] if "ExpMass" in key_cols or True else None,
+        "ScanNr": [k[0] for k in keyed],
+        "ExpMass": [k[1] for k in keyed],
     }
     if "ret_time" in key_cols:
         d["ret_time"] = [10.0 + int(r["spec"]) * 0.5 for r in rows]
